@@ -2,6 +2,7 @@ import BqVerif.Proofs.CircHistory
 import BqVerif.Proofs.CircInvB
 import BqVerif.Proofs.CircIter
 import BqVerif.Proofs.CircQudit
+import BqVerif.Proofs.CircViews
 /-! # C05 — all views of a Circuit stay mutually consistent after every edit
 
 The views (`next/prev/front/rear/first_on/last_on`, counters, iteration) are *functions of the
@@ -78,5 +79,57 @@ example :
       .pop (some (-1, 1)), .append o2, .compress]
     ((Circ.empty [2, 2, 2]).run h).invB = true ∧ ((Circ.empty [2, 2, 2]).run h).numOps = 3 := by
   decide
+
+/-! ## the DAG views are functions of the grid with the documented meaning -/
+
+/-- `next` on a qudit is the first later cycle in which the qudit is occupied (the point returned
+is that cell's operation at its `location[0]`); `prev` is the last earlier one. -/
+theorem C05_nextOn_prevOn_spec (c : Circ) (k q : Nat) (p : Nat × Nat) :
+    (c.nextOn k q = some p ↔ ∃ j x, k < j ∧ c.cell j q = some x ∧ p = (j, x.head) ∧
+      ∀ t, k < t → t < j → c.cell t q = none) ∧
+    (c.prevOn k q = some p ↔ ∃ j x, j < k ∧ c.cell j q = some x ∧ p = (j, x.head) ∧
+      ∀ t, j < t → t < k → c.cell t q = none) :=
+  ⟨nextOn_spec c k q p, prevOn_spec c k q p⟩
+
+/-- **next and prev are mutually inverse on every qudit**: for an operation `o` of cycle `k` and
+an operation `x` of cycle `j` that share qudit `q`, `x` is `o`'s successor on `q` iff `o` is `x`'s
+predecessor on `q`; successors lie in strictly later cycles, predecessors in strictly earlier
+ones (so the derived DAG is acyclic). -/
+theorem C05_next_prev_inverse (c : Circ) (hinv : c.Inv) (k j q : Nat) (o x : Op)
+    (hk : k < c.cycles.length) (hj : j < c.cycles.length)
+    (ho : o ∈ c.cycles[k]) (hx : x ∈ c.cycles[j]) (hqo : q ∈ o.loc) (hqx : q ∈ x.loc) :
+    (c.nextOn k q = some (j, x.head) ↔ c.prevOn j q = some (k, o.head)) ∧
+      (∀ p, c.nextOn k q = some p → k < p.1) ∧ (∀ p, c.prevOn j q = some p → p.1 < j) :=
+  ⟨nextOn_iff_prevOn c k j q o x (cell_of_mem c hinv k q o hk ho hqo)
+      (cell_of_mem c hinv j q x hj hx hqx),
+    fun p h => nextOn_lt c k q p h, fun p h => prevOn_lt c j q p h⟩
+
+-- non-vacuity: X@0 ; CNOT@(0,1) ; H@1 — the CNOT is X's successor on qudit 0
+example :
+    let c : Circ := ⟨[2, 2], [[⟨1, [], [0], [2]⟩], [⟨6, [], [0, 1], [2, 2]⟩], [⟨2, [], [1], [2]⟩]]⟩
+    c.invB = true ∧ c.nextOn 0 0 = some (1, 0) ∧ c.prevOn 1 0 = some (0, 0) ∧
+      c.nextOn 1 1 = some (2, 1) ∧ c.prevOn 2 1 = some (1, 0) := by decide
+
+/-- **front / rear**: `front` lists, each once, exactly the points `(cycle, location[0])` of the
+operations without predecessor, `rear` those without successor; and an operation has no
+predecessor (successor) iff no earlier (later) cycle holds anything on one of its qudits. -/
+theorem C05_front_rear (c : Circ) :
+    (∀ p, p ∈ c.front ↔ ∃ k o, (∃ h : k < c.cycles.length, o ∈ c.cycles[k]) ∧
+      c.prev k o = [] ∧ p = (k, o.head)) ∧ c.front.Nodup ∧
+    (∀ p, p ∈ c.rear ↔ ∃ k o, (∃ h : k < c.cycles.length, o ∈ c.cycles[k]) ∧
+      c.next k o = [] ∧ p = (k, o.head)) ∧ c.rear.Nodup ∧
+    (∀ k o, c.prev k o = [] ↔ ∀ q ∈ o.loc, ∀ t, t < k → c.cell t q = none) ∧
+    (∀ k o, c.next k o = [] ↔ ∀ q ∈ o.loc, ∀ t, k < t → c.cell t q = none) := by
+  refine ⟨fun p => ?_, front_nodup c, fun p => ?_, rear_nodup c, prev_eq_nil c, next_eq_nil c⟩
+  · rw [mem_front]; simp only [mem_iterCyc]
+  · rw [mem_rear]; simp only [mem_iterCyc]
+
+/-- **first / last point of a qudit** are the two ends of the qudit's timeline (with the cycle
+index of every entry, `timelineIdx`, whose operations are the timeline under `Inv`). -/
+theorem C05_first_last_point (c : Circ) (hinv : c.Inv) (q : Nat) :
+    c.firstPoint q = (c.timelineIdx q).head?.map (fun x => (x.1, x.2.head)) ∧
+    c.lastPointOn q = (c.timelineIdx q).getLast?.map (fun x => (x.1, x.2.head)) ∧
+    (c.timelineIdx q).map Prod.snd = c.timeline q :=
+  ⟨firstPoint_eq c q, lastPointOn_eq c q, timelineIdx_ops c hinv q⟩
 
 end BqVerif.C05
